@@ -117,6 +117,7 @@ class Agg:
         self.failures = []  # (case, problem)
         self.samples = []
         self.fail_count = 0
+        self.sig_count = {}
         self.sets = {}
 
     def add(self, case, r):
@@ -137,7 +138,8 @@ class Agg:
             self.extra[k] = max(self.extra.get(k, v), v)
         for p in r['problems']:
             self.fail_count += 1
-            if len(self.failures) < 200:
+            n = self.sig_count[p['sig']] = self.sig_count.get(p['sig'], 0) + 1
+            if n <= 2 and len(self.sig_count) <= 400:
                 self.failures.append((case, p))
         if r.get('sample') is not None and len(self.samples) < 6:
             self.samples.append(r['sample'])
@@ -311,10 +313,9 @@ def main(modname, argv=None):
         sig = p['sig']
         k = next((e for e in open_k if e['property'] == pid and e['sig'] == sig), None)
         if k is not None:
-            known_hit.setdefault(sig, [k, 0, case])[1] += 1
+            known_hit.setdefault(sig, [k, agg.sig_count.get(sig, 1), case])
             continue
         if sig in seen_sig:
-            seen_sig[sig][2] += 1
             continue
         # believe a failure only if it reproduces in this (fresh) process
         if not case.get('finalize') and not getattr(mod, 'NO_REPRO', False):
@@ -322,7 +323,7 @@ def main(modname, argv=None):
             if not any(q['sig'] == sig for q in r2['problems']):
                 flaky.append((case, p))
                 continue
-        seen_sig[sig] = [case, p, 1]
+        seen_sig[sig] = [case, p, agg.sig_count.get(sig, 1)]
     rc = 0
     for sig, (k, n, case) in sorted(known_hit.items()):
         print(f"KNOWN-FINDING: property={pid} {k['what']} [sig={sig}; {n} failing cases this run]")
